@@ -1,9 +1,11 @@
 pub mod c01;
+pub mod c02;
+pub mod c04;
 
 use crate::core::Prop;
 
 pub fn all() -> Vec<Box<dyn Prop>> {
-    vec![Box::new(c01::C01)]
+    vec![Box::new(c01::C01), Box::new(c02::C02), Box::new(c04::C04)]
 }
 
 pub fn by_id(id: &str) -> Option<Box<dyn Prop>> {
